@@ -73,7 +73,7 @@ def main():
         meta["demo_discriminates"] = (rc0 == 0 and rc1 != 0)
         # our checks against the changed tree
         checks = (a.checks.split(",") if a.checks else [a.prop])
-        env2 = dict(os.environ, TWZ_REPO=wt)
+        env2 = dict(os.environ, TWZ_REPO=wt, TWZ_EVIDENCE_DIR=os.path.join(tmp, "evidence"), TWZ_REPLAY_DIR=os.path.join(tmp, "replays"))
         meta["checks"] = {}
         for pid in checks:
             t0 = time.time()
@@ -89,7 +89,6 @@ def main():
     finally:
         sh("git -C /repo worktree remove --force %s" % os.path.join(tmp, "repo"))
         shutil.rmtree(tmp, ignore_errors=True)
-        sh("git -C %s checkout -- evidence" % ROOT)
 
 
 def finish(a, src, meta):
